@@ -71,12 +71,19 @@ FailedAt(lib, c, x, m, tnf) ==
         \/ n = "QuietestCapable" /\ ~QuietestCapableAt(lib, c, x, m, tnf)}
 
 -----------------------------------------------------------------------------
-(* Multiband preselection.  A multiband type is a group of single-band models; the models put in the bands of one  *)
-(* multiband amplifier must all belong to ONE permitted group and each must cover the band it serves.             *)
-(* groups : set of [alw, listed, members : set of ids]; hasList : a variety / ROADM restriction applies;           *)
-(* chosen : set of [id, fmin, fmax, bfmin, bfmax]                                                                  *)
+(* Multiband amplifiers.  A multiband type is a group of single-band models.  The models put in the bands of one     *)
+(* multiband amplifier must all belong to ONE admitted group, each must cover the band it serves, and the type the     *)
+(* amplifier ends up with must be such a group.  Admitted: the operator's own multiband type when one is given         *)
+(* (ptype), else the types listed by the variety list / ROADM restriction, else those allowed for design.             *)
+(* groups : set of [idx, alw, listed, members : set of ids]; hasList : a variety / ROADM restriction applies;           *)
+(* ptype : idx of the operator-chosen type or NONE; chosen : set of [id, fmin, fmax, bfmin, bfmax]                      *)
 GroupPermitted(gr, hasList) == IF hasList THEN gr.listed ELSE gr.alw
-OneGroupAt(groups, hasList, chosen) ==
-    \E gr \in groups : GroupPermitted(gr, hasList) /\ {x.id : x \in chosen} \subseteq gr.members
+GroupAdmitted(gr, hasList, ptype) == IF ptype # NONE THEN gr.idx = ptype ELSE GroupPermitted(gr, hasList)
+MemberOfAdmittedGroupAt(groups, hasList, ptype, id) ==
+    \E gr \in groups : GroupAdmitted(gr, hasList, ptype) /\ id \in gr.members
+OneGroupAt(groups, hasList, ptype, chosen) ==
+    \E gr \in groups : GroupAdmitted(gr, hasList, ptype) /\ {x.id : x \in chosen} \subseteq gr.members
+NamedGroupAdmittedAt(groups, hasList, ptype, named, chosen) ==
+    \E gr \in groups : gr.idx = named /\ GroupAdmitted(gr, hasList, ptype) /\ {x.id : x \in chosen} \subseteq gr.members
 EveryMemberCoversItsBandAt(chosen) == \A x \in chosen : x.fmin <= x.bfmin /\ x.fmax >= x.bfmax
 ==============================================================================
